@@ -289,6 +289,9 @@ func (r *hyRun) randQuery() hyQuery {
 	}
 	if useV {
 		q.qpos = 1 + 2*r.rng.Intn(12)
+		if r.rng.Intn(3) == 0 {
+			q.qpos = 2 * r.rng.Intn(12) // the position of a (possible) stored document: distance exactly 0
+		}
 	}
 	if useT {
 		q.text = hyWords[r.rng.Intn(4)]
@@ -360,6 +363,10 @@ func (r *hyRun) battery() {
 	r.search(hyQuery{qpos: -1, text: "zzz", groups: eq("x"), k: 3, fusion: 0, wv: 2, wt: 2})      // text matches nothing inside a non-empty candidate set
 	r.search(hyQuery{qpos: 5, text: "aa", groups: eq("w"), k: 3, fusion: 2, wv: 2, wt: 2})         // filter matches nothing
 	r.search(hyQuery{qpos: 9, text: "bb", groups: eq("y"), k: 2, fusion: 3, wv: 2, wt: 2})         // min fusion: intersection may be empty
+	// a query on a stored position (distance 0) with text, under every fusion
+	for f := 0; f < 4; f++ {
+		r.search(hyQuery{qpos: 2, text: "aa bb", k: 5, fusion: f, wv: 2, wt: 2})
+	}
 	// boundary fusion configurations: both weights zero, one weight zero, reciprocal-rank constants 0 and 1
 	r.search(hyQuery{qpos: 3, text: "aa bb", k: 5, fusion: 0, wv: 0, wt: 0})
 	r.search(hyQuery{qpos: 3, text: "aa bb", k: 5, fusion: 0, wv: 0, wt: 2})
